@@ -474,8 +474,9 @@ class Run:
         evpath = os.path.join(VERIF, "evidence", f"{self.prop}.json")
         if self.prop == "EXTRA":       # outside the manifest: its coverage record lives next to the design notes
             evpath = os.path.join(VERIF, "design", "EXTRA.evidence.json")
-        with open(evpath, "w") as f:
+        with open(evpath + ".tmp", "w") as f:
             json.dump(ev, f, indent=1, default=str)
+        os.replace(evpath + ".tmp", evpath)          # never a half-written evidence file
         for key, what in self.known_hits:
             print(f"KNOWN-FINDING: property={self.prop} {key}: {what}")
         for v in self.violations:
@@ -570,6 +571,12 @@ def proof_stage(run, spec):
         names, axioms = [], {}
         if ok:
             names, axioms, err = run_audit(run.prop, props_files(spec))
+            if not err and names and not all(n in axioms for n in names):
+                # the audit printed less than one line per theorem although it exited 0: run it once more before believing that
+                time.sleep(1.0)
+                names, axioms, err = run_audit(run.prop, props_files(spec))
+                if not err and names and not any(n in axioms for n in names):
+                    raise Infra("the axiom audit produced no output for any theorem (lake env lean exited 0)")
             if err:
                 broken.append({"kind": "audit", "name": f"Pms/Audit/{run.prop}.lean", "detail": err[-500:]})
         else:
@@ -698,6 +705,9 @@ def main(spec, argv):
                                "cases": [c for b in unexplained for c in b.get("cases", [])[:3]][:6],
                                "note": "no failing input found by the search; the items listed under 'broken' are the theorems / correspondences that no longer check"},
                               no_input=True)
+        if not run.violations and run.coverage.get("discharged") != run.coverage.get("obligations"):
+            # cannot happen when the stages above did their work: an undischarged obligation is a broken item and ends in a report
+            raise Infra(f"inconsistent record: no violation although {run.coverage.get('discharged')} of {run.coverage.get('obligations')} obligations are discharged")
         return run.finish()
     except Infra as e:
         print(f"INFRA-ERROR {spec.PROP}: {e}", file=sys.stderr)
